@@ -218,6 +218,15 @@ func execute(t *testing.T, sc scenario) (res result) {
 			return i
 		}
 		cfg := ring.DoUntilQuorumConfig{MinimizeRequests: sc.Minimize, IsTerminalError: func(e error) bool { _, ok := e.(termErr); return ok }}
+		hasTerminal := false
+		for _, o := range sc.Outcomes {
+			if o == "terminal" {
+				hasTerminal = true
+			}
+		}
+		if !hasTerminal && len(sc.Outcomes)%2 == 0 {
+			cfg.IsTerminalError = nil // no classifier configured: no error is terminal
+		}
 		if sc.Hedge {
 			cfg.HedgingDelay = hedgeDelay
 		}
